@@ -25,6 +25,9 @@ CHECKS = {
  "C16": ("exploration", "runtime monitor: generated programs with lazy/strict/variadic formals over all call routes vs reference evaluator with memoising thunks; strict-formal probes",
          "Random programs mixing lazy, strict, closure-valued and variadic formals, called by name, alias, parameter, computed callee, apply, map, recursion and tail calls, with effectful arguments; the reference evaluator decides how often and in which environment each argument is evaluated; every function traces its strict formals so an unevaluated argument in a strict position is visible.",
          "Trusted: reference evaluator's thunk model; substitute compared only where source printing is modelled.", "DESIGN.md §4.C16"),
+ "C07": ("exploration", "runtime monitor: exhaustive boundary-grid pairs + random 64-bit patterns through EvalString vs math/big / IEEE oracle, plus trichotomy and symmetry on the interpreter's own answers",
+         "Every ordered pair of a 47-value boundary grid (exhaustive) and thousands of random bit patterns are evaluated under every comparison and arithmetic operator with operands injected bit-exactly and as literals; an independent exact oracle decides each result.",
+         "Trusted: math/big and Go float64 arithmetic; pairings the statement does not name (uint64 vs others) are not judged.", "DESIGN.md §4.C07"),
 }
 
 NA_REASON = {}
